@@ -2,6 +2,7 @@ package c11
 
 import (
 	"fmt"
+	"os"
 	"strings"
 	"testing"
 
@@ -12,6 +13,9 @@ import (
 )
 
 func TestMain(m *testing.M) { stats.Main(m) }
+
+// devOnlyWitness is never set by the driver.
+var devOnlyWitness = os.Getenv("C11_DEV_ONLY_WITNESS") == "1"
 
 type fataler interface {
 	Fatalf(format string, args ...any)
@@ -62,6 +66,11 @@ func reparse(t fataler, q *query.Query, origin string) (*query.Query, string) {
 		t.Fatalf("the printed text of a checked query does not parse\n  origin: %s\n  printed: %q\n  error: %v", origin, p1, err)
 	}
 	p2 := printQ(t, q2, "reparsed "+origin)
+	if devOnlyWitness {
+		// development switch for the sensitivity runs (NOTES.md): leaves only the
+		// record-matching oracle active so that its own strength can be measured
+		return q2, p1
+	}
 	if p1 != p2 {
 		t.Fatalf("print -> parse -> print is not stable\n  origin: %s\n  first:  %q\n  second: %q", origin, p1, p2)
 	}
@@ -105,6 +114,13 @@ func sameMatches(t fataler, rt *rapid.T, a, b *query.Query, leaves []*cond, text
 			}
 		}
 	}
+	// Matches() = MatchesKey() && MatchesRecord(): the key prefix is part of "the same records"
+	_, kp := splitPrefix(keyPrefixOf(a))
+	for _, k := range []string{kp, kp + "x", dropLastRune(kp), "", "x" + kp} {
+		if ma, mb := a.MatchesKey(k), b.MatchesKey(k); ma != mb {
+			t.Fatalf("query and reparsed query disagree on the record key %q: %v vs %v (text %q)", k, ma, mb, text)
+		}
+	}
 	if len(leaves) == 0 {
 		check(&witness{rec: &wrec{}, json: `{"a":1}`}, "random")
 		return
@@ -126,6 +142,8 @@ func sameMatches(t fataler, rt *rapid.T, a, b *query.Query, leaves []*cond, text
 		check(drawWitness(rt, leaves, -1, 0), "random")
 	}
 }
+
+func keyPrefixOf(q *query.Query) string { return q.DatabaseName() + ":" + q.DatabaseKeyPrefix() }
 
 func fingerprintClasses(m *qmodel) (*facts, []string) {
 	f := m.facts()
@@ -161,6 +179,7 @@ func TestPropAPIRoundTrip(t *testing.T) { rapid.Check(t, propAPIRoundTrip) }
 // ---------------------------------------------------------------- (b) text from the documented grammar
 
 func propGrammarText(t *rapid.T) {
+	salt(t, 1)
 	m := genModel(t, true)
 	r := &renderer{t: t}
 	text := r.text(m)
@@ -233,20 +252,96 @@ var soupVocabulary = []string{
 }
 
 func genSoup(t *rapid.T) string {
-	n := rapid.IntRange(0, 24).Draw(t, "soup_n")
+	n := uni(t, "soup_n", 25)
 	var sb strings.Builder
-	if rapid.IntRange(0, 9).Draw(t, "soup_head") < 8 {
+	if uni(t, "soup_head", 10) < 8 {
 		sb.WriteString("query db: ")
 		if rapid.Bool().Draw(t, "soup_where") {
 			sb.WriteString("where ")
 		}
 	}
 	for i := 0; i < n; i++ {
-		sb.WriteString(rapid.SampledFrom(soupVocabulary).Draw(t, "soup_tok"))
-		if rapid.IntRange(0, 9).Draw(t, "soup_sp") < 7 {
+		sb.WriteString(pick(t, "soup_tok", soupVocabulary))
+		if uni(t, "soup_sp", 10) < 7 {
 			sb.WriteByte(' ')
 		}
 	}
+	return sb.String()
+}
+
+// genClauseSoup: mostly well-formed sequences of clauses, connectors and parentheses,
+// so that a good share of the soups gets past the first token.
+func genClauseSoup(t *rapid.T) string {
+	var sb strings.Builder
+	sb.WriteString("query ")
+	sb.WriteString(pick(t, "cs_prefix", []string{"db:", "db:k", "\"a b:\"", "é:日", ":"}))
+	sb.WriteString(" where")
+	conns := []string{pick(t, "cs_conn0", []string{" and", " or"})} // one connector per open group
+	first := true                                                   // no connector right after "(" / "where"
+	n := 1 + uni(t, "cs_n", 8)
+	for i := 0; i < n; i++ {
+		if !first {
+			c := conns[len(conns)-1]
+			switch uni(t, "cs_connkind", 12) {
+			case 0:
+				c = pick(t, "cs_conn", []string{" and", " or", "", " not", " and not"})
+			}
+			sb.WriteString(c)
+		}
+		first = false
+		switch uni(t, "cs_paren", 8) {
+		case 0, 1:
+			sb.WriteString(" (")
+			conns = append(conns, pick(t, "cs_connN", []string{" and", " or"}))
+		case 2:
+			sb.WriteString(" not (")
+			conns = append(conns, pick(t, "cs_connN", []string{" and", " or"}))
+		}
+		sb.WriteByte(' ')
+		if uni(t, "cs_reserved_key", 40) == 0 {
+			sb.WriteString(pick(t, "cs_rkey", []string{"not ", "and ", "\"(\" ", "or "}))
+		}
+		sb.WriteString(pick(t, "cs_key", []string{"a", "b.c", "\"a b\"", "é", "limit", "x\\ y", "\"\"", "k1", "k2", "k3", "a", "b.c", "\"a b\"", "é", "offset", "x\\ y", "k1", "k2", "k3", "a", "b.c", "k4", "é", "orderby", "日", "k1", "k2", "k3", "k5"}))
+		if uni(t, "cs_neg", 5) == 0 {
+			sb.WriteString(" not")
+		}
+		sb.WriteByte(' ')
+		op := uint8(uni(t, "cs_op", numOps))
+		names := opNames[op]
+		sb.WriteString(names[uni(t, "cs_name", len(names))])
+		ty := typeOfOp(op)
+		if uni(t, "cs_valtype", 20) == 0 {
+			ty = opType(uni(t, "cs_anytype", 7)) // operand of another type: mostly a value error
+		}
+		var vals []string
+		switch ty {
+		case tInt:
+			vals = []string{"1", "-5", "0", "9223372036854775807", "\"12\"", "+3", "9223372036854775808"}
+		case tFloat:
+			vals = []string{"1.5", "-0", "NaN", "+Inf", "1e21", "\"2.5\"", "0x1p-2", "1e999"}
+		case tString:
+			vals = []string{"x", "\"a b\"", "\"\"", "é", "\"x\\\"y\"", "x\\\\", "\"()\"", "\"(\"", "and", "a\\ b", "日", "\\(", "not"}
+		case tList:
+			vals = []string{"a,b", "\"a b,c\"", ",", "a,b,c,d", "x", "é,日", "\"\""}
+		case tRegex:
+			vals = []string{"^a\\(b", "[a-", "^ab+$", "\"a b\"", "\\d+", "\"[\\\"]\"", "x"}
+		case tBool:
+			vals = []string{"true", "F", "0", "T", "yes"}
+		}
+		if ty != tExists {
+			sb.WriteByte(' ')
+			sb.WriteString(pick(t, "cs_val", vals))
+		}
+		if len(conns) > 1 && uni(t, "cs_close", 3) == 0 {
+			sb.WriteString(pick(t, "cs_closeform", []string{")", " )", ") "}))
+			conns = conns[:len(conns)-1]
+		}
+	}
+	for len(conns) > 1 && uni(t, "cs_closeall", 12) != 0 {
+		sb.WriteString(")")
+		conns = conns[:len(conns)-1]
+	}
+	sb.WriteString(pick(t, "cs_tail", []string{"", "", "", " limit 5", " orderby a", " offset 0", " orderby \"a b\" limit 1 offset 2", " limit", " limit -1", " limit 5 limit 6", " where a ex"}))
 	return sb.String()
 }
 
@@ -258,13 +353,13 @@ func mutate(t *rapid.T, text string) string {
 		if len(rs) > 0 {
 			pos = rapid.IntRange(0, len(rs)).Draw(t, "mut_pos")
 		}
-		switch rapid.IntRange(0, 5).Draw(t, "mut_kind") {
+		switch uni(t, "mut_kind", 6) {
 		case 0: // delete one rune
 			if pos < len(rs) {
 				rs = append(rs[:pos:pos], rs[pos+1:]...)
 			}
 		case 1: // insert a vocabulary item
-			ins := []rune(rapid.SampledFrom(soupVocabulary).Draw(t, "mut_ins"))
+			ins := []rune(pick(t, "mut_ins", soupVocabulary))
 			rs = append(rs[:pos:pos], append(ins, rs[pos:]...)...)
 		case 2: // truncate
 			rs = rs[:pos]
@@ -277,7 +372,7 @@ func mutate(t *rapid.T, text string) string {
 			rs = append(rs[:end:end], append(span, rs[end:]...)...)
 		case 4: // replace a rune by a control character of the grammar
 			if pos < len(rs) {
-				rs[pos] = rapid.SampledFrom([]rune{'(', ')', '"', '\\', ' ', '\t', ',', '日'}).Draw(t, "mut_rune")
+				rs[pos] = pick(t, "mut_rune", []rune{'(', ')', '"', '\\', ' ', '\t', ',', '日'})
 			}
 		default: // swap two blank-separated words
 			words := strings.Split(string(rs), " ")
@@ -293,8 +388,9 @@ func mutate(t *rapid.T, text string) string {
 }
 
 func propTotality(t *rapid.T) {
+	salt(t, 2)
 	var text, class string
-	switch rapid.IntRange(0, 4).Draw(t, "total_kind") {
+	switch uni(t, "total_kind", 6) {
 	case 0:
 		text, class = rapid.String().Draw(t, "arbitrary"), "total_arbitrary_string"
 	case 1:
@@ -310,6 +406,8 @@ func propTotality(t *rapid.T) {
 		m := genModel(t, true)
 		r := &renderer{t: t}
 		text, class = mutate(t, r.text(m)), "total_mutated_grammar_text"
+	case 4:
+		text, class = genClauseSoup(t), "total_clause_soup"
 	default:
 		text, class = "query "+rapid.String().Draw(t, "arbitrary_tail"), "total_arbitrary_after_query"
 	}
@@ -319,7 +417,7 @@ func propTotality(t *rapid.T) {
 		res = "_parsed"
 	}
 	stats.Case("total:"+text, len(text) > 8, class, class+res)
-	if ok && class == "total_token_soup" && len(text) > 30 && stats.WantSample("totality_parsed_soup") {
+	if ok && (class == "total_token_soup" || class == "total_clause_soup") && len(text) > 30 && stats.WantSample("totality_parsed_soup") {
 		stats.Sample("totality_parsed_soup", map[string]any{"input": text})
 	}
 	if !ok && class == "total_mutated_print" && stats.WantSample("totality_rejected_mutation") {
